@@ -227,8 +227,11 @@ def check_cli_case(ctx, rng, index):
         grid = np.array([r[0] for r in rows], dtype=float)
         ref = np.array([0.0] + [oh.clamped_integral(f, grid[i - 1], grid[i], knots) for i in range(1, len(grid))]).cumsum()
         scale = max(1e-6, float(np.max(np.abs(f(np.linspace(grid[0], grid[-1], 101))))) * (grid[-1] - grid[0]))
-        if float(np.max(np.abs((sim_col - sim_col[0]) - ref))) > 1e-9 * scale:
-            rec.violation('simulated-column-is-not-the-integral-of-specific-yield', {'scale': scale}, wcase, 'rise_cli')
+        # the column is shifted to the measured mean: differences of printed numbers of magnitude M
+        # cannot be better than a few ulps of M, however small the storage itself is
+        roundoff = 8 * 2.0 ** -52 * float(np.max(np.abs(sim_col)))
+        if float(np.max(np.abs((sim_col - sim_col[0]) - ref))) > 1e-9 * scale + roundoff:
+            rec.violation('simulated-column-is-not-the-integral-of-specific-yield', {'scale': scale, 'roundoff_allowance': roundoff}, wcase, 'rise_cli')
             continue
         if abs(sim_col.mean() - meas.mean()) > 1e-9 * max(1.0, abs(meas.mean()), scale):
             rec.violation('simulated-mean-differs-from-measured-mean', {'simulated': float(sim_col.mean()), 'measured': float(meas.mean())}, wcase, 'rise_cli')
